@@ -296,6 +296,7 @@ func (p *parserState) consumeArray(b []byte, qs []query, lvl int) (n int) {
 			continue
 		case ']':
 			p.ib++
+			p.currPath = p.currPath[:len(p.currPath)-1]
 			return n + 1
 		default:
 			return 0
